@@ -17,249 +17,13 @@ import (
 	"bytes"
 	"fmt"
 	"hash/fnv"
+	"strings"
 
 	"github.com/bluenviron/gortsplib/v5/pkg/mikey"
 
 	"verifharness/hx"
+	"verifharness/mikey/mkw"
 )
-
-// ---------- wire encoding of values (must match Mikey.enc_message) ----------
-
-func encMessage(l *hx.L, m *mikey.Message) {
-	h := &m.Header
-	l.N(uint64(h.Version)).N(uint64(h.DataType)).B(h.V).N(uint64(h.PRFFunc)).N(uint64(h.CSBID)).N(uint64(h.CSIDMapType))
-	l.I(len(h.CSIDMapInfo))
-	for _, e := range h.CSIDMapInfo {
-		l.N(uint64(e.PolicyNo)).N(uint64(e.SSRC)).N(uint64(e.ROC))
-	}
-	l.I(len(m.Payloads))
-	for _, p := range m.Payloads {
-		switch p := p.(type) {
-		case *mikey.PayloadKEMAC:
-			l.N(1).N(uint64(p.EncrAlg)).I(len(p.SubPayloads))
-			for _, sp := range p.SubPayloads {
-				l.N(uint64(sp.Type)).N(uint64(sp.KV)).Bytes(sp.KeyData).Bytes(sp.SPI)
-			}
-			l.N(uint64(p.MacAlg))
-		case *mikey.PayloadT:
-			l.N(2).N(uint64(p.TSType)).N(p.TSValue)
-		case *mikey.PayloadSP:
-			l.N(3).N(uint64(p.PolicyNo)).N(uint64(p.ProtType)).I(len(p.PolicyParams))
-			for _, pp := range p.PolicyParams {
-				l.N(uint64(pp.Type)).Bytes(pp.Value)
-			}
-		case *mikey.PayloadRAND:
-			l.N(4).Bytes(p.Data)
-		default:
-			panic(fmt.Sprintf("unknown payload %T", p))
-		}
-	}
-}
-
-func encStr(m *mikey.Message) string {
-	var l hx.L
-	encMessage(&l, m)
-	return l.String()
-}
-
-type rd struct {
-	v   []uint64
-	bad bool
-}
-
-func (r *rd) n() uint64 {
-	if len(r.v) == 0 {
-		r.bad = true
-		return 0
-	}
-	x := r.v[0]
-	r.v = r.v[1:]
-	return x
-}
-
-func (r *rd) bytes() []byte {
-	k := r.n()
-	if uint64(len(r.v)) < k {
-		r.bad = true
-		return nil
-	}
-	b := make([]byte, k)
-	for i := range b {
-		b[i] = byte(r.v[i])
-	}
-	r.v = r.v[k:]
-	return b
-}
-
-func decMessage(v []uint64) (*mikey.Message, bool) {
-	r := &rd{v: v}
-	m := &mikey.Message{}
-	h := &m.Header
-	h.Version = uint8(r.n())
-	h.DataType = mikey.DataType(r.n())
-	h.V = r.n() != 0
-	h.PRFFunc = uint8(r.n())
-	h.CSBID = uint32(r.n())
-	h.CSIDMapType = mikey.CSIDMapType(r.n())
-	k := r.n()
-	for i := uint64(0); i < k && !r.bad; i++ {
-		h.CSIDMapInfo = append(h.CSIDMapInfo, mikey.SRTPIDEntry{PolicyNo: uint8(r.n()), SSRC: uint32(r.n()), ROC: uint32(r.n())})
-	}
-	np := r.n()
-	for i := uint64(0); i < np && !r.bad; i++ {
-		switch r.n() {
-		case 1:
-			p := &mikey.PayloadKEMAC{EncrAlg: mikey.PayloadKEMACEncrAlg(r.n())}
-			ns := r.n()
-			for j := uint64(0); j < ns && !r.bad; j++ {
-				sp := &mikey.SubPayloadKeyData{Type: mikey.SubPayloadKeyDataType(r.n()), KV: mikey.SubPayloadKeyDataKV(r.n())}
-				sp.KeyData = r.bytes()
-				sp.SPI = r.bytes()
-				p.SubPayloads = append(p.SubPayloads, sp)
-			}
-			p.MacAlg = mikey.PayloadKEMACMacAlg(r.n())
-			m.Payloads = append(m.Payloads, p)
-		case 2:
-			m.Payloads = append(m.Payloads, &mikey.PayloadT{TSType: uint8(r.n()), TSValue: r.n()})
-		case 3:
-			p := &mikey.PayloadSP{PolicyNo: uint8(r.n()), ProtType: mikey.PayloadSPProtType(r.n())}
-			ns := r.n()
-			for j := uint64(0); j < ns && !r.bad; j++ {
-				pp := mikey.PayloadSPPolicyParam{Type: mikey.PayloadSPPolicyParamType(r.n())}
-				pp.Value = r.bytes()
-				p.PolicyParams = append(p.PolicyParams, pp)
-			}
-			m.Payloads = append(m.Payloads, p)
-		case 4:
-			m.Payloads = append(m.Payloads, &mikey.PayloadRAND{Data: r.bytes()})
-		default:
-			r.bad = true
-		}
-	}
-	return m, !r.bad && len(r.v) == 0
-}
-
-// flip: 0 plain deep copy; 1 every empty slice becomes nil; 2 every empty/nil slice becomes empty non-nil
-func cloneBytes(b []byte, flip int) []byte {
-	if len(b) == 0 {
-		switch flip {
-		case 1:
-			return nil
-		case 2:
-			return []byte{}
-		}
-		if b == nil {
-			return nil
-		}
-		return []byte{}
-	}
-	return append([]byte(nil), b...)
-}
-
-func cloneMsg(m *mikey.Message, flip int) *mikey.Message {
-	c := &mikey.Message{Header: m.Header}
-	if len(m.Header.CSIDMapInfo) != 0 || (flip == 2) || (flip == 0 && m.Header.CSIDMapInfo != nil) {
-		c.Header.CSIDMapInfo = append([]mikey.SRTPIDEntry{}, m.Header.CSIDMapInfo...)
-	} else {
-		c.Header.CSIDMapInfo = nil
-	}
-	if len(m.Payloads) != 0 || flip == 2 || (flip == 0 && m.Payloads != nil) {
-		c.Payloads = []mikey.Payload{}
-	}
-	for _, p := range m.Payloads {
-		switch p := p.(type) {
-		case *mikey.PayloadKEMAC:
-			q := &mikey.PayloadKEMAC{EncrAlg: p.EncrAlg, MacAlg: p.MacAlg}
-			if len(p.SubPayloads) != 0 || flip == 2 || (flip == 0 && p.SubPayloads != nil) {
-				q.SubPayloads = []*mikey.SubPayloadKeyData{}
-			}
-			for _, sp := range p.SubPayloads {
-				q.SubPayloads = append(q.SubPayloads, &mikey.SubPayloadKeyData{
-					Type: sp.Type, KV: sp.KV, KeyData: cloneBytes(sp.KeyData, flip), SPI: cloneBytes(sp.SPI, flip),
-				})
-			}
-			c.Payloads = append(c.Payloads, q)
-		case *mikey.PayloadT:
-			q := *p
-			c.Payloads = append(c.Payloads, &q)
-		case *mikey.PayloadSP:
-			q := &mikey.PayloadSP{PolicyNo: p.PolicyNo, ProtType: p.ProtType}
-			if len(p.PolicyParams) != 0 || flip == 2 || (flip == 0 && p.PolicyParams != nil) {
-				q.PolicyParams = []mikey.PayloadSPPolicyParam{}
-			}
-			for _, pp := range p.PolicyParams {
-				q.PolicyParams = append(q.PolicyParams, mikey.PayloadSPPolicyParam{Type: pp.Type, Value: cloneBytes(pp.Value, flip)})
-			}
-			c.Payloads = append(c.Payloads, q)
-		case *mikey.PayloadRAND:
-			c.Payloads = append(c.Payloads, &mikey.PayloadRAND{Data: cloneBytes(p.Data, flip)})
-		}
-	}
-	return c
-}
-
-// ---------- the property's notion of "well-formed MIKEY message" (independent of the Coq model) ----------
-
-func wellFormed(m *mikey.Message) bool {
-	h := &m.Header
-	if h.Version != 1 || h.DataType != 0 || h.V || h.PRFFunc != 0 || h.CSIDMapType != 0 || len(h.CSIDMapInfo) > 255 {
-		return false
-	}
-	for _, p := range m.Payloads {
-		switch p := p.(type) {
-		case *mikey.PayloadKEMAC:
-			if p.EncrAlg != 0 || p.MacAlg != 0 || len(p.SubPayloads) == 0 {
-				return false
-			}
-			total := 0
-			for _, sp := range p.SubPayloads {
-				if sp.Type != 2 || len(sp.KeyData) > 65535 {
-					return false
-				}
-				total += 4 + len(sp.KeyData)
-				switch sp.KV {
-				case 0:
-					if len(sp.SPI) != 0 {
-						return false
-					}
-				case 1:
-					if len(sp.SPI) > 255 {
-						return false
-					}
-					total += 1 + len(sp.SPI)
-				default:
-					return false
-				}
-			}
-			if total > 65535 {
-				return false
-			}
-		case *mikey.PayloadT:
-			if p.TSType != 0 {
-				return false
-			}
-		case *mikey.PayloadSP:
-			if p.ProtType != 0 {
-				return false
-			}
-			total := 0
-			for _, pp := range p.PolicyParams {
-				if len(pp.Value) > 255 {
-					return false
-				}
-				total += 2 + len(pp.Value)
-			}
-			if total > 65535 {
-				return false
-			}
-		case *mikey.PayloadRAND:
-			if len(p.Data) < 16 || len(p.Data) > 255 {
-				return false
-			}
-		}
-	}
-	return true
-}
 
 // ---------- running the implementation ----------
 
@@ -284,7 +48,7 @@ func doUnmarshal(b []byte) (r ures) {
 	}
 	var l hx.L
 	l.N(1)
-	encMessage(&l, m)
+	mkw.EncMessage(&l, m)
 	return ures{obs: l.String(), m: m, ok: true}
 }
 
@@ -347,10 +111,10 @@ func checkBytes(b []byte, kind string, follow bool) {
 		ctx.Failf(idx, "mikey-unmarshal-nondeterministic", cl, "same bytes, different outcomes: %q / %q / %q", r1.obs, r2.obs, r3.obs)
 	}
 	if r1.ok && follow {
-		if !wellFormed(r1.m) {
-			ctx.Failf(idx, "mikey-parsed-not-wellformed", cl, "Unmarshal accepted bytes but produced a value outside the well-formed set: %s", encStr(r1.m))
+		if !mkw.WfMessage(r1.m) {
+			ctx.Failf(idx, "mikey-parsed-not-wellformed", cl, "Unmarshal accepted bytes but produced a value outside the well-formed set: %s", mkw.EncString(r1.m))
 		}
-		checkValue(cloneMsg(r1.m, 0), "parsed/"+kind, false)
+		checkValue(mkw.CloneFlip(r1.m, 0), "parsed/"+kind, false)
 	}
 }
 
@@ -358,11 +122,11 @@ func checkBytes(b []byte, kind string, follow bool) {
 func checkValue(m *mikey.Message, kind string, followBytes bool) {
 	ctx.Eval()
 	ctx.Kind(kind)
-	before := encStr(m)
+	before := mkw.EncString(m)
 	var c2 hx.L
 	c2.N(2).Raw(before)
 	cl := c2.String()
-	snapshot := cloneMsg(m, 0)
+	snapshot := mkw.CloneFlip(m, 0)
 	r := doMarshal(m)
 	if r.panicked {
 		idx := ctx.Corr(cl, "77")
@@ -375,18 +139,18 @@ func checkValue(m *mikey.Message, kind string, followBytes bool) {
 		return
 	}
 	idx := ctx.Corr(cl, caseBytes(0, r.b)[2:]) // "len b1..bn"
-	wf := wellFormed(m)
+	wf := mkw.WfMessage(m)
 	if wf {
 		ctx.Nontrivial(hashKey(cl))
 	}
 	// purity
-	if encStr(m) != before {
-		ctx.Failf(idx, "mikey-marshal-impure", cl, "Marshal modified its receiver: %s", encStr(m))
+	if mkw.EncString(m) != before {
+		ctx.Failf(idx, "mikey-marshal-impure", cl, "Marshal modified its receiver: %s", mkw.EncString(m))
 	}
 	r2 := doMarshal(m)
 	r3 := doMarshal(snapshot)
-	r4 := doMarshal(cloneMsg(m, 1))
-	r5 := doMarshal(cloneMsg(m, 2))
+	r4 := doMarshal(mkw.CloneFlip(m, 1))
+	r5 := doMarshal(mkw.CloneFlip(m, 2))
 	for i, x := range []mres{r2, r3, r4, r5} {
 		if x.panicked || x.err != nil || !bytes.Equal(x.b, r.b) {
 			ctx.Failf(idx, "mikey-marshal-impure", cl, "marshalling again (variant %d: 0 same value, 1 deep clone, 2 nil slices, 3 empty slices) gave different bytes", i)
@@ -399,11 +163,11 @@ func checkValue(m *mikey.Message, kind string, followBytes bool) {
 	if u.panicked {
 		ctx.Failf(idx, "mikey-unmarshal-panic", caseBytes(1, r.b), "Unmarshal(Marshal(m)) panicked: %s", u.pmsg)
 	}
-	rt := u.ok && encStr(u.m) == before
+	rt := u.ok && mkw.EncString(u.m) == before
 	if wf && !rt {
 		got := "error"
 		if u.ok {
-			got = encStr(u.m)
+			got = mkw.EncString(u.m)
 		}
 		ctx.Failf(idx, "mikey-roundtrip-mismatch", cl, "well-formed value does not survive Marshal;Unmarshal: got %s", got)
 	}
@@ -414,225 +178,6 @@ func checkValue(m *mikey.Message, kind string, followBytes bool) {
 	if followBytes {
 		checkBytes(r.b, "marshalled/"+kind, false)
 	}
-}
-
-// ---------- generators ----------
-
-func genSRTP(r *hx.Rand) mikey.SRTPIDEntry {
-	return mikey.SRTPIDEntry{
-		PolicyNo: hx.Pick(r, uint8(0), 1, 255, uint8(r.U64())),
-		SSRC:     hx.Pick(r, uint32(0), 1, 0xffffffff, 0x80000000, uint32(r.U64())),
-		ROC:      hx.Pick(r, uint32(0), 1, 0xffffffff, uint32(r.U64())),
-	}
-}
-
-func genHeader(r *hx.Rand, nmap int) mikey.Header {
-	h := mikey.Header{Version: 1, CSBID: hx.Pick(r, uint32(0), 1, 0xffffffff, 0x01000000, uint32(r.U64()))}
-	if nmap > 0 || r.Bool() {
-		h.CSIDMapInfo = []mikey.SRTPIDEntry{}
-	}
-	for i := 0; i < nmap; i++ {
-		h.CSIDMapInfo = append(h.CSIDMapInfo, genSRTP(r))
-	}
-	return h
-}
-
-func genKD(r *hx.Rand, keyLen int, spi bool, spiLen int) *mikey.SubPayloadKeyData {
-	sp := &mikey.SubPayloadKeyData{Type: 2, KeyData: r.Bytes(keyLen)}
-	if spi {
-		sp.KV = 1
-		sp.SPI = r.Bytes(spiLen)
-	}
-	return sp
-}
-
-func genKEMAC(r *hx.Rand) *mikey.PayloadKEMAC {
-	p := &mikey.PayloadKEMAC{}
-	n := hx.Pick(r, 1, 1, 2, 3)
-	for i := 0; i < n; i++ {
-		p.SubPayloads = append(p.SubPayloads, genKD(r, hx.Pick(r, 0, 1, 16, 30, 32, 255, 256, r.Intn(64)), r.Bool(), hx.Pick(r, 0, 1, 4, 255, r.Intn(20))))
-	}
-	return p
-}
-
-func genT(r *hx.Rand) *mikey.PayloadT {
-	return &mikey.PayloadT{TSValue: hx.Pick(r, uint64(0), 1, 0xffffffffffffffff, 0x0100000000000000, 0xff, r.U64())}
-}
-
-func genSP(r *hx.Rand) *mikey.PayloadSP {
-	p := &mikey.PayloadSP{PolicyNo: hx.Pick(r, uint8(0), 1, 255, uint8(r.U64()))}
-	n := hx.Pick(r, 0, 1, 2, 3, 4, 7, 13)
-	for i := 0; i < n; i++ {
-		p.PolicyParams = append(p.PolicyParams, mikey.PayloadSPPolicyParam{
-			Type:  mikey.PayloadSPPolicyParamType(hx.Pick(r, uint8(0), 1, 12, 13, 255, uint8(r.U64()))),
-			Value: r.Bytes(hx.Pick(r, 0, 1, 1, 2, 4, 255, r.Intn(16))),
-		})
-	}
-	return p
-}
-
-func genRAND(r *hx.Rand) *mikey.PayloadRAND {
-	return &mikey.PayloadRAND{Data: r.Bytes(hx.Pick(r, 16, 16, 17, 255, r.Range(16, 255)))}
-}
-
-func genPayload(r *hx.Rand, k int) mikey.Payload {
-	switch k {
-	case 0:
-		return genKEMAC(r)
-	case 1:
-		return genT(r)
-	case 2:
-		return genSP(r)
-	default:
-		return genRAND(r)
-	}
-}
-
-func genMapCount(r *hx.Rand) int {
-	if r.Intn(40) == 0 {
-		return 255
-	}
-	return r.Intn(4)
-}
-
-// a well-formed message with the given payload kinds in the given order
-func genWF(r *hx.Rand, kinds []int) *mikey.Message {
-	m := &mikey.Message{Header: genHeader(r, genMapCount(r))}
-	for _, k := range kinds {
-		m.Payloads = append(m.Payloads, genPayload(r, k))
-	}
-	return m
-}
-
-// 0..3 payloads of each kind, shuffled
-func genKindsRandom(r *hx.Rand) []int {
-	var ks []int
-	for k := 0; k < 4; k++ {
-		for i := r.Intn(4); i > 0; i-- {
-			ks = append(ks, k)
-		}
-	}
-	for i := len(ks) - 1; i > 0; i-- {
-		j := r.Intn(i + 1)
-		ks[i], ks[j] = ks[j], ks[i]
-	}
-	return ks
-}
-
-// a typical message (the shape of the upstream test vectors): T RAND SP KEMAC
-func typical(r *hx.Rand) *mikey.Message {
-	return genWF(r, []int{1, 3, 2, 0})
-}
-
-func firstOf[T any](m *mikey.Message) T {
-	for _, p := range m.Payloads {
-		if x, ok := p.(T); ok {
-			return x
-		}
-	}
-	var z T
-	return z
-}
-
-type mutation struct {
-	name string
-	f    func(r *hx.Rand, m *mikey.Message)
-}
-
-// edits that take a typical well-formed message out of (or to the edge of) the well-formed set
-var valueMutations = []mutation{
-	{"version0", func(_ *hx.Rand, m *mikey.Message) { m.Header.Version = 0 }},
-	{"version2", func(_ *hx.Rand, m *mikey.Message) { m.Header.Version = 2 }},
-	{"datatype1", func(_ *hx.Rand, m *mikey.Message) { m.Header.DataType = 1 }},
-	{"V", func(_ *hx.Rand, m *mikey.Message) { m.Header.V = true }},
-	{"prf5", func(_ *hx.Rand, m *mikey.Message) { m.Header.PRFFunc = 5 }},
-	{"prf128", func(_ *hx.Rand, m *mikey.Message) { m.Header.PRFFunc = 128 }},
-	{"maptype1", func(_ *hx.Rand, m *mikey.Message) { m.Header.CSIDMapType = 1 }},
-	{"map255", func(r *hx.Rand, m *mikey.Message) { m.Header = genHeader(r, 255) }},
-	{"map256", func(r *hx.Rand, m *mikey.Message) { m.Header = genHeader(r, 256) }},
-	{"map257", func(r *hx.Rand, m *mikey.Message) { m.Header = genHeader(r, 257) }},
-	{"rand0", func(r *hx.Rand, m *mikey.Message) { firstOf[*mikey.PayloadRAND](m).Data = nil }},
-	{"rand15", func(r *hx.Rand, m *mikey.Message) { firstOf[*mikey.PayloadRAND](m).Data = r.Bytes(15) }},
-	{"rand255", func(r *hx.Rand, m *mikey.Message) { firstOf[*mikey.PayloadRAND](m).Data = r.Bytes(255) }},
-	{"rand256", func(r *hx.Rand, m *mikey.Message) { firstOf[*mikey.PayloadRAND](m).Data = r.Bytes(256) }},
-	{"rand272", func(r *hx.Rand, m *mikey.Message) { firstOf[*mikey.PayloadRAND](m).Data = r.Bytes(272) }},
-	{"rand300", func(r *hx.Rand, m *mikey.Message) { firstOf[*mikey.PayloadRAND](m).Data = r.Bytes(300) }},
-	{"spprot1", func(r *hx.Rand, m *mikey.Message) { firstOf[*mikey.PayloadSP](m).ProtType = 1 }},
-	{"spvalue255", func(r *hx.Rand, m *mikey.Message) {
-		p := firstOf[*mikey.PayloadSP](m)
-		p.PolicyParams = append(p.PolicyParams, mikey.PayloadSPPolicyParam{Type: 3, Value: r.Bytes(255)})
-	}},
-	{"spvalue256", func(r *hx.Rand, m *mikey.Message) {
-		p := firstOf[*mikey.PayloadSP](m)
-		p.PolicyParams = append(p.PolicyParams, mikey.PayloadSPPolicyParam{Type: 3, Value: r.Bytes(256)})
-	}},
-	{"sptotal65535", func(r *hx.Rand, m *mikey.Message) {
-		p := firstOf[*mikey.PayloadSP](m)
-		p.PolicyParams = nil
-		for i := 0; i < 255; i++ {
-			p.PolicyParams = append(p.PolicyParams, mikey.PayloadSPPolicyParam{Type: mikey.PayloadSPPolicyParamType(i), Value: r.Bytes(255)})
-		}
-	}},
-	{"sptotal65537", func(r *hx.Rand, m *mikey.Message) {
-		p := firstOf[*mikey.PayloadSP](m)
-		p.PolicyParams = nil
-		for i := 0; i < 255; i++ {
-			p.PolicyParams = append(p.PolicyParams, mikey.PayloadSPPolicyParam{Type: mikey.PayloadSPPolicyParamType(i), Value: r.Bytes(255)})
-		}
-		p.PolicyParams = append(p.PolicyParams, mikey.PayloadSPPolicyParam{Type: 1})
-	}},
-	{"sptotal65536+k", func(r *hx.Rand, m *mikey.Message) {
-		// truncated length field = length of a proper prefix of the params
-		p := firstOf[*mikey.PayloadSP](m)
-		p.PolicyParams = nil
-		for i := 0; i < 256; i++ {
-			p.PolicyParams = append(p.PolicyParams, mikey.PayloadSPPolicyParam{Type: mikey.PayloadSPPolicyParamType(i), Value: r.Bytes(254)})
-		}
-	}},
-	{"tstype1", func(r *hx.Rand, m *mikey.Message) { firstOf[*mikey.PayloadT](m).TSType = 1 }},
-	{"encr1", func(r *hx.Rand, m *mikey.Message) { firstOf[*mikey.PayloadKEMAC](m).EncrAlg = 1 }},
-	{"mac1", func(r *hx.Rand, m *mikey.Message) { firstOf[*mikey.PayloadKEMAC](m).MacAlg = 1 }},
-	{"nosubs", func(r *hx.Rand, m *mikey.Message) { firstOf[*mikey.PayloadKEMAC](m).SubPayloads = nil }},
-	{"kdtype1", func(r *hx.Rand, m *mikey.Message) { firstOf[*mikey.PayloadKEMAC](m).SubPayloads[0].Type = 1 }},
-	{"kdtype18", func(r *hx.Rand, m *mikey.Message) { firstOf[*mikey.PayloadKEMAC](m).SubPayloads[0].Type = 18 }},
-	{"kv2", func(r *hx.Rand, m *mikey.Message) { firstOf[*mikey.PayloadKEMAC](m).SubPayloads[0].KV = 2 }},
-	{"kv17", func(r *hx.Rand, m *mikey.Message) { firstOf[*mikey.PayloadKEMAC](m).SubPayloads[0].KV = 17 }},
-	{"kv0spi", func(r *hx.Rand, m *mikey.Message) {
-		sp := firstOf[*mikey.PayloadKEMAC](m).SubPayloads[0]
-		sp.KV = 0
-		sp.SPI = r.Bytes(4)
-	}},
-	{"spi255", func(r *hx.Rand, m *mikey.Message) {
-		firstOf[*mikey.PayloadKEMAC](m).SubPayloads = []*mikey.SubPayloadKeyData{genKD(r, 16, true, 255)}
-	}},
-	{"spi256", func(r *hx.Rand, m *mikey.Message) {
-		firstOf[*mikey.PayloadKEMAC](m).SubPayloads = []*mikey.SubPayloadKeyData{genKD(r, 16, true, 256)}
-	}},
-	{"key65531", func(r *hx.Rand, m *mikey.Message) {
-		firstOf[*mikey.PayloadKEMAC](m).SubPayloads = []*mikey.SubPayloadKeyData{genKD(r, 65531, false, 0)}
-	}},
-	{"key65532", func(r *hx.Rand, m *mikey.Message) {
-		firstOf[*mikey.PayloadKEMAC](m).SubPayloads = []*mikey.SubPayloadKeyData{genKD(r, 65532, false, 0)}
-	}},
-	{"key65536", func(r *hx.Rand, m *mikey.Message) {
-		firstOf[*mikey.PayloadKEMAC](m).SubPayloads = []*mikey.SubPayloadKeyData{genKD(r, 65536, false, 0)}
-	}},
-	{"encr65535", func(r *hx.Rand, m *mikey.Message) {
-		firstOf[*mikey.PayloadKEMAC](m).SubPayloads = []*mikey.SubPayloadKeyData{genKD(r, 30000, false, 0), genKD(r, 35270, true, 252)}
-	}},
-	{"encr65536", func(r *hx.Rand, m *mikey.Message) {
-		firstOf[*mikey.PayloadKEMAC](m).SubPayloads = []*mikey.SubPayloadKeyData{genKD(r, 30000, false, 0), genKD(r, 35270, true, 253)}
-	}},
-	{"encr65536+", func(r *hx.Rand, m *mikey.Message) {
-		// truncated length = size of the first sub-payload only
-		firstOf[*mikey.PayloadKEMAC](m).SubPayloads = []*mikey.SubPayloadKeyData{genKD(r, 20, false, 0), genKD(r, 65532, false, 0)}
-	}},
-}
-
-// an edit may not apply after another one (e.g. kdtype1 after nosubs): then it is skipped
-func applyEdit(mu mutation, r *hx.Rand, m *mikey.Message) {
-	defer func() { _ = recover() }()
-	mu.f(r, m)
 }
 
 // upstream test vector "a" and the padded one (message_test.go), as independent seeds of the corpus
@@ -654,7 +199,7 @@ func mustMarshal(m *mikey.Message) []byte {
 	return r.b
 }
 
-// positions of length / count / type fields of a marshalled typical message are found by brute force:
+// positions of length / count / type fields of a marshalled mkw.Typical message are found by brute force:
 // every position is a candidate; the interesting replacement values are these
 var fieldValues = []byte{0, 1, 2, 4, 5, 9, 10, 11, 15, 16, 17, 20, 0x20, 0x21, 0x7f, 0x80, 0xfe, 0xff}
 
@@ -680,7 +225,7 @@ func malformedFrom(r *hx.Rand, base []byte, name string, exhaustive bool) {
 				}
 				b := append([]byte(nil), base...)
 				b[i] = byte(v)
-				checkBytes(b, "malformed/byte-mutation-exhaustive", true)
+				checkBytes(b, "malformed/byte-mkw.Mutation-exhaustive", true)
 			}
 		}
 	} else {
@@ -688,17 +233,20 @@ func malformedFrom(r *hx.Rand, base []byte, name string, exhaustive bool) {
 			// length-field style values at every position, plus +-1 and one random value
 			vals := append([]byte(nil), fieldValues...)
 			vals = append(vals, base[i]+1, base[i]-1, byte(r.U64()))
+			for k := 0; k < 8; k++ { // single-bit flips (masks and shifts of packed fields)
+				vals = append(vals, base[i]^(1<<k))
+			}
 			for _, v := range vals {
 				if v == base[i] {
 					continue
 				}
 				b := append([]byte(nil), base...)
 				b[i] = v
-				checkBytes(b, "malformed/byte-mutation", true)
+				checkBytes(b, "malformed/byte-mkw.Mutation", true)
 			}
 		}
 	}
-	// mutation + truncation / extension combined
+	// mkw.Mutation + truncation / extension combined
 	n := 40
 	if exhaustive {
 		n = 2000
@@ -714,7 +262,7 @@ func malformedFrom(r *hx.Rand, base []byte, name string, exhaustive bool) {
 		case 1:
 			b = append(b, r.Bytes(r.Intn(12))...)
 		}
-		checkBytes(b, "malformed/multi-mutation", true)
+		checkBytes(b, "malformed/multi-mkw.Mutation", true)
 	}
 	_ = name
 }
@@ -809,7 +357,7 @@ func replay() {
 			}
 			checkBytes(b, "replay/bytes", true)
 		case 2, 3:
-			m, ok := decMessage(v[1:])
+			m, ok := mkw.DecMessage(v[1:])
 			if !ok {
 				fmt.Println("bad kind-2/3 line")
 				continue
@@ -828,7 +376,7 @@ func main() {
 		"bytes: marshalled values and upstream vectors, truncated at every length, with every kind of tail (0x00 padding rule), " +
 		"every position overwritten (all 255 other values in the thorough tier), multi-mutations, random and grammar-shaped random strings. " +
 		"A case is non-trivial when Unmarshal accepts it (bytes) or the value is well-formed (values); distinct = distinct case line.")
-	if ctx.Prop != "C09" && ctx.Prop != "" {
+	if !strings.HasPrefix(ctx.Prop, "C09") && ctx.Prop != "" {
 		fmt.Println("unsupported property", ctx.Prop)
 	}
 	if ctx.Replay != "" {
@@ -849,34 +397,22 @@ func main() {
 	reps := ctx.Budget(2, 6)
 	enumKinds(maxLen, func(ks []int) {
 		for i := 0; i < reps; i++ {
-			checkValue(genWF(r, ks), "value/wf-every-order", true)
+			checkValue(mkw.GenWF(r, ks), "value/wf-every-order", true)
 		}
 	})
 	for i := ctx.Budget(300, 15000); i > 0; i-- {
-		checkValue(genWF(r, genKindsRandom(r)), "value/wf-random-multiset", true)
+		checkValue(mkw.GenWF(r, mkw.GenKindsRandom(r)), "value/wf-random-multiset", true)
 	}
 	for rep := ctx.Budget(1, 20); rep > 0; rep-- {
-		for _, mu := range valueMutations {
-			m := typical(r)
-			mu.f(r, m)
-			checkValue(m, "value/edit-"+mu.name, true)
+		for _, mu := range mkw.ValueMutations {
+			m := mkw.Typical(r)
+			mu.F(r, m)
+			checkValue(m, "value/edit-"+mu.Name, true)
 		}
 	}
-	// random combinations of two edits on random shapes that contain all four kinds
+	// random combinations of one or two edits on random shapes that contain all four kinds
 	for i := ctx.Budget(60, 3000); i > 0; i-- {
-		ks := append([]int{0, 1, 2, 3}, genKindsRandom(r)...)
-		for j := len(ks) - 1; j > 0; j-- {
-			k := r.Intn(j + 1)
-			ks[j], ks[k] = ks[k], ks[j]
-		}
-		m := genWF(r, ks)
-		for e := 0; e < 2; e++ {
-			mu := valueMutations[r.Intn(len(valueMutations))]
-			if len(mu.name) > 5 && (mu.name[:3] == "key" || mu.name[:4] == "encr" && mu.name != "encr1" || mu.name[:5] == "sptot") && r.Intn(4) != 0 {
-				continue // keep the 64 KiB cases rare
-			}
-			applyEdit(mu, r, m)
-		}
+		m := mkw.GenMessage(r, false)
 		checkValue(m, "value/edit-random-pair", true)
 	}
 
@@ -884,9 +420,9 @@ func main() {
 	var corpus [][]byte
 	corpus = append(corpus, vectorA)
 	for i := ctx.Budget(5, 12); i > 0; i-- {
-		m := genWF(r, []int{1, 3, 2, 0})
+		m := mkw.GenWF(r, []int{1, 3, 2, 0})
 		// keep corpus items small so that every position can be explored
-		m.Header = genHeader(r, i%3)
+		m.Header = mkw.GenHeader(r, i%3)
 		m.Payloads[1] = &mikey.PayloadRAND{Data: r.Bytes(16 + i%2)}
 		sp := &mikey.PayloadSP{PolicyNo: byte(i)}
 		for j := 0; j < 1+i%3; j++ {
@@ -895,7 +431,7 @@ func main() {
 		m.Payloads[2] = sp
 		ke := &mikey.PayloadKEMAC{}
 		for j := 0; j <= i%2; j++ {
-			ke.SubPayloads = append(ke.SubPayloads, genKD(r, 4+3*j, (i+j)%2 == 0, 2*j+1))
+			ke.SubPayloads = append(ke.SubPayloads, mkw.GenKD(r, 4+3*j, (i+j)%2 == 0, 2*j+1))
 		}
 		m.Payloads[3] = ke
 		if i%4 == 0 {
